@@ -729,6 +729,74 @@ Definition pg_norm (w : pg_world) (h : pg_href) : pg_href :=
   | _ => h
   end.
 
+(* renumbering loop: for (i = from; i < npages; ++i) insertPageobjToPage(all_pages.at(i), i, false) *)
+Definition pg_renumber (m : list (N * Z)) (all' : list N) (from : nat) : list (N * Z) :=
+  fold_left (fun m (ix : nat * N) => pg_pos_set m (snd ix) (Z.of_nat (fst ix)))
+    (skipn from (combine (seq 0 (length all')) all')) m.
+
+(* Pages::insert from "auto pages = qpdf.getRoot()["/Pages"]" on: newpage is the local indirect object ni *)
+Definition pg_insert_core (p : pg_doc) (ni : N) (pos : Z) : pg_doc * option pg_err :=
+  match pg_root_pages p with
+  | PvRef pn =>
+      let s := pd_store p in
+      let s := pg_obj_set_key s ni k_Parent (PvRef pn) in
+      match pg_rv s (pg_hget s (PvRef pn) k_Kids) with
+      | PvArr kids =>
+          match pg_hget s (PvRef pn) k_Kids with
+          | PvRef _ => (pd_with_store p s, Some PeUnm)
+          | _ =>
+            let n := Z.to_nat pos in
+            if Nat.ltb (length kids) n then (pd_with_store p s, Some PeUnm)
+            else
+              let kids' := pg_list_ins kids n (PvRef ni) in
+              let s := pg_obj_set_key s pn k_Kids (PvArr kids') in
+              let npages := pg_len kids' in
+              let s := pg_obj_set_key s pn k_Count (PvInt npages) in
+              let all' := pg_list_ins (pd_all p) n ni in
+              if negb (npages =? pg_len all')%Z then
+                (pd_with_all (pd_with_store p s) all', Some PeUnm)
+              else
+                let m := pg_renumber (pd_pos p) all' (S n) in
+                match pg_pos_find m ni with
+                | Some _ => (pd_with_pos (pd_with_all (pd_with_store p s) all') m, Some PeQ)
+                | None => (pd_with_pos (pd_with_all (pd_with_store p s) all') ((ni, pos) :: m), None)
+                end
+          end
+      | _ => (pd_with_store p s, Some PeRt)     (* Array::array() throws *)
+      end
+  | _ => (p, Some PeUnm)
+  end.
+
+(* a page that is already there is replaced by makeIndirectObject(copy()) *)
+Definition pg_insert_dup (p : pg_doc) (np : pg_val) : pg_doc * option pg_err * pg_val :=
+  match np with
+  | PvRef i =>
+      match pg_pos_find (pd_pos p) i with
+      | Some _ =>
+          match pg_lookup (pd_store p) i with
+          | Some (PcStream _ _ _) => (p, Some PeRt, np)
+          | _ => let '(s, j) := pg_alloc (pd_store p) (PcObj (pg_rv (pd_store p) np)) in
+                 (pd_with_store p s, None, PvRef j)
+          end
+      | None => (p, None, np)
+      end
+  | _ => (p, None, np)
+  end.
+
+(* Pages::insert once newpage is local (np): range check, duplicate check, insertion *)
+Definition pg_insert_local (p : pg_doc) (np : pg_val) (pos : Z) : pg_doc * option pg_err :=
+  if (pos <? 0)%Z || (pg_len (pd_all p) <? pos)%Z then (p, Some PeRt)
+  else
+    let '(p, e, np) := pg_insert_dup p np in
+    match e with
+    | Some _ => (p, e)
+    | None =>
+      match np with
+      | PvRef ni => pg_insert_core p ni pos
+      | _ => (p, Some PeQ)     (* replaceKey on a direct null without owner *)
+      end
+    end.
+
 (* Pages::insert *)
 Definition pg_insert (w : pg_world) (d : bool) (h : pg_href) (pos : Z) : pg_world * option pg_err :=
   let '(p, e) := pg_flatten (pg_get w d) in
@@ -756,95 +824,39 @@ Definition pg_insert (w : pg_world) (d : bool) (h : pg_href) (pos : Z) : pg_worl
       end in
     match e with
     | Some _ => (w, e)
-    | None =>
-      let p := pg_get w d in
-      if (pos <? 0)%Z || (pg_len (pd_all p) <? pos)%Z then (w, Some PeRt)
-      else
-        (* a page that is already there is replaced by makeIndirectObject(copy()) *)
-        let '(p, e, np) :=
-          match np with
-          | PvRef i =>
-              match pg_pos_find (pd_pos p) i with
-              | Some _ =>
-                  match pg_lookup (pd_store p) i with
-                  | Some (PcStream _ _ _) => (p, Some PeRt, np)
-                  | _ => let '(s, j) := pg_alloc (pd_store p) (PcObj (pg_rv (pd_store p) np)) in
-                         (pd_with_store p s, None, PvRef j)
-                  end
-              | None => (p, None, np)
-              end
-          | _ => (p, None, np)
-          end in
-        match e with
-        | Some _ => (pg_put w d p, e)
-        | None =>
-          match np with
-          | PvRef ni =>
-            match pg_root_pages p with
-            | PvRef pn =>
-                let s := pd_store p in
-                let s := pg_obj_set_key s ni k_Parent (PvRef pn) in
-                match pg_rv s (pg_hget s (PvRef pn) k_Kids) with
-                | PvArr kids =>
-                    match pg_hget s (PvRef pn) k_Kids with
-                    | PvRef _ => (pg_put w d (pd_with_store p s), Some PeUnm)
-                    | _ =>
-                      let n := Z.to_nat pos in
-                      if Nat.ltb (length kids) n then (pg_put w d (pd_with_store p s), Some PeUnm)
-                      else
-                        let kids' := pg_list_ins kids n (PvRef ni) in
-                        let s := pg_obj_set_key s pn k_Kids (PvArr kids') in
-                        let npages := pg_len kids' in
-                        let s := pg_obj_set_key s pn k_Count (PvInt npages) in
-                        let all' := pg_list_ins (pd_all p) n ni in
-                        if negb (npages =? pg_len all')%Z then
-                          (pg_put w d (pd_with_all (pd_with_store p s) all'), Some PeUnm)
-                        else
-                          let m := fold_left (fun m (ix : nat * N) => pg_pos_set m (snd ix) (Z.of_nat (fst ix)))
-                                     (skipn (S n) (combine (seq 0 (length all')) all')) (pd_pos p) in
-                          match pg_pos_find m ni with
-                          | Some _ => (pg_put w d (pd_with_pos (pd_with_all (pd_with_store p s) all') m), Some PeQ)
-                          | None => (pg_put w d (pd_with_pos (pd_with_all (pd_with_store p s) all') ((ni, pos) :: m)), None)
-                          end
-                    end
-                | _ => (pg_put w d (pd_with_store p s), Some PeRt)     (* Array::array() throws *)
-                end
-            | _ => (pg_put w d p, Some PeUnm)
-            end
-          | _ => (pg_put w d p, Some PeQ)     (* replaceKey on a direct null without owner *)
-          end
-        end
+    | None => let '(p, e) := pg_insert_local (pg_get w d) np pos in (pg_put w d p, e)
     end
   end.
 
-(* Pages::erase, after findPage *)
+(* Pages::erase after findPage returned pos *)
+Definition pg_erase_core (p : pg_doc) (og : N) (pos : Z) : pg_doc * option pg_err :=
+  match pg_root_pages p with
+  | PvRef pn =>
+      let s := pd_store p in
+      match pg_hget s (PvRef pn) k_Kids with
+      | PvArr kids =>
+          let n := Z.to_nat pos in
+          let kids' := pg_list_del kids n in
+          let s := pg_obj_set_key s pn k_Kids (PvArr kids') in
+          let npages := pg_len kids' in
+          let s := pg_obj_set_key s pn k_Count (PvInt npages) in
+          let all' := pg_list_del (pd_all p) n in
+          let m := pg_pos_erase (pd_pos p) og in
+          if negb (npages =? pg_len all')%Z || Nat.leb (length (pd_all p)) n then
+            (pd_with_pos (pd_with_all (pd_with_store p s) all') m, Some PeUnm)
+          else
+            (pd_with_pos (pd_with_all (pd_with_store p s) all') (pg_renumber m all' n), None)
+      | _ => (p, Some PeUnm)
+      end
+  | _ => (p, Some PeUnm)
+  end.
+
+(* Pages::erase *)
 Definition pg_erase (w : pg_world) (d : bool) (og : N) : pg_world * option pg_err :=
   let '(p, e, pos) := pg_find (pg_get w d) og in
   match e with
   | Some _ => (pg_put w d p, e)
-  | None =>
-    match pg_root_pages p with
-    | PvRef pn =>
-        let s := pd_store p in
-        match pg_hget s (PvRef pn) k_Kids with
-        | PvArr kids =>
-            let n := Z.to_nat pos in
-            let kids' := pg_list_del kids n in
-            let s := pg_obj_set_key s pn k_Kids (PvArr kids') in
-            let npages := pg_len kids' in
-            let s := pg_obj_set_key s pn k_Count (PvInt npages) in
-            let all' := pg_list_del (pd_all p) n in
-            let m := pg_pos_erase (pd_pos p) og in
-            if negb (npages =? pg_len all')%Z || Nat.leb (length (pd_all p)) n then
-              (pg_put w d (pd_with_pos (pd_with_all (pd_with_store p s) all') m), Some PeUnm)
-            else
-              let m := fold_left (fun m (ix : nat * N) => pg_pos_set m (snd ix) (Z.of_nat (fst ix)))
-                         (skipn n (combine (seq 0 (length all')) all')) m in
-              (pg_put w d (pd_with_pos (pd_with_all (pd_with_store p s) all') m), None)
-        | _ => (pg_put w d p, Some PeUnm)
-        end
-    | _ => (pg_put w d p, Some PeUnm)
-    end
+  | None => let '(p, e) := pg_erase_core p og pos in (pg_put w d p, e)
   end.
 
 Inductive pg_op :=
